@@ -23,6 +23,7 @@ RULE = (
     "12x12 periodic grid, a 1-D grid and a cylindrical grid x time variants x settings menu (threshold x minimal_radius x refine x refine_args x "
     "perturbation_modes; refinement only for sequences without the noise field) x source {None, index into a FieldCollection, callable} x "
     "{fresh, pre-filled} time course; one 12-frame sequence; every prefix is checked; non-trivial = some frame contains a droplet"
+    "; every frame is also compared with its own analysis under a deep copy of the settings; all ordered pairs of five tracker configurations fed alternately in a fresh fork; one length tracker fed frames on four different grids"
 )
 ASSUMPTIONS = [
     "fields restricted to the alphabet; trackers are driven through initialize/handle/finalize directly, plus two real numpy-backend solver runs",
